@@ -568,12 +568,18 @@ def run_sim(fn, seed=None, preempt=False, script=None, spin_limit=5000000, time_
         for t in s.tasks[1:]:
             if t.state != "done" and t.thread is not None:
                 _async_raise(t.thread, Killed)
-        raise RealTimeLimit(f"no result after {real_limit} s of real time at virtual t={s.now:.2f}; tasks: {s.tasks!r}")
+        raise RealTimeLimit(f"no result after {real_limit} s of CPU time (or ten times that of wall-clock time) at virtual t={s.now:.2f}; tasks: {s.tasks!r}")
 
     old = None
+    old_prof = None
     if use_alarm:
+        # the budget is CPU time of this process (a scenario that loops burns it; a process that is merely starved by a
+        # busy machine does not), with a wall-clock backstop ten times as long for a scenario that blocks without
+        # consuming anything (e.g. on a real primitive created outside the simulation)
         old = signal.signal(signal.SIGALRM, on_alarm)
-        signal.setitimer(signal.ITIMER_REAL, real_limit)
+        old_prof = signal.signal(signal.SIGPROF, on_alarm)
+        signal.setitimer(signal.ITIMER_PROF, real_limit)
+        signal.setitimer(signal.ITIMER_REAL, max(10.0 * real_limit, 120.0))
     try:
         with installed(s):
             try:
@@ -582,8 +588,10 @@ def run_sim(fn, seed=None, preempt=False, script=None, spin_limit=5000000, time_
                 r = e
     finally:
         if use_alarm:
+            signal.setitimer(signal.ITIMER_PROF, 0)
             signal.setitimer(signal.ITIMER_REAL, 0)
             signal.signal(signal.SIGALRM, old)
+            signal.signal(signal.SIGPROF, old_prof)
     if fired["v"] and not isinstance(r, RealTimeLimit):
         r = RealTimeLimit(f"real-time budget of {real_limit} s exceeded")
     if isinstance(r, Killed):
